@@ -24,6 +24,9 @@ mod services;
 #[cfg(test)]
 mod tests;
 
+#[cfg(feature = "verif-hooks")]
+pub mod verif;
+
 pub use crate::{
     behaviour::Behaviour,
     errors::Error,
